@@ -22,7 +22,10 @@ type c05Scen struct {
 	breaks    int           // stream breaks during the fault period
 	faultFor  time.Duration // length of the fault period (0 = no faults)
 	seed      int64
+	readBuf   [2]int // reader buffer sizes (client, server); 0 = 40000
 }
+
+var c05Bufs = []int{1, 511, 4096, 16384, 32767, 32768, 32769, 40000, 70000}
 
 var c05Sizes = []int{1, 2, 17, 18, 100, 1000, 4095, 32767, 32768, 32769, 40000, 65534, 65535}
 
@@ -43,6 +46,11 @@ func c05Scenarios(thorough bool) []c05Scen {
 	// every size once in each direction, no faults
 	out = append(out, c05Scen{name: "all-sizes", sizes: [2][]int{c05Sizes, c05Sizes}})
 	out = append(out, c05Scen{name: "all-sizes-kk", prepaired: true, sizes: [2][]int{c05Sizes, c05Sizes}})
+	// every size read through small and odd buffers
+	out = append(out, c05Scen{name: "all-sizes-small-bufs", prepaired: true, sizes: [2][]int{c05Sizes, c05Sizes},
+		readBuf: [2]int{4096, 16384}})
+	out = append(out, c05Scen{name: "all-sizes-odd-bufs", prepaired: true, sizes: [2][]int{c05Sizes, c05Sizes},
+		readBuf: [2]int{32769, 511}})
 	n := 10
 	if thorough {
 		n = 40
@@ -53,6 +61,7 @@ func c05Scenarios(thorough bool) []c05Scen {
 			maxDelay: time.Duration(r.Intn(300)) * time.Millisecond,
 			breaks:   r.Intn(4), faultFor: time.Duration(4+r.Intn(8)) * time.Second}
 		sc.sizes = [2][]int{pick(6+r.Intn(10), i%3 == 0), pick(6+r.Intn(10), i%3 == 1)}
+		sc.readBuf = [2]int{c05Bufs[1+r.Intn(len(c05Bufs)-1)], c05Bufs[1+r.Intn(len(c05Bufs)-1)]}
 		if i%5 == 4 {
 			sc.sizes[1] = nil // one direction only
 		}
@@ -66,7 +75,8 @@ func c05Scenarios(thorough bool) []c05Scen {
 }
 
 func runC05(sc c05Scen) (*lncrun.Session, error) {
-	s, err := lncrun.New(lncrun.Options{PrePaired: sc.prepaired, Patience: 90 * time.Second})
+	s, err := lncrun.New(lncrun.Options{PrePaired: sc.prepaired, Patience: 90 * time.Second,
+		ReadBuf: sc.readBuf})
 	if err != nil {
 		return nil, err
 	}
@@ -194,7 +204,7 @@ func TestC05Streams(t *testing.T) {
 			}
 			desc := map[string]any{"i": i, "scen": sc.name, "prepaired": sc.prepaired, "pDrop": sc.pDrop,
 				"maxDelayMs": int(sc.maxDelay / time.Millisecond), "breaks": sc.breaks,
-				"faultForS": int(sc.faultFor / time.Second), "sizesC": sc.sizes[0], "sizesS": sc.sizes[1]}
+				"faultForS": int(sc.faultFor / time.Second), "readBuf": sc.readBuf, "sizesC": sc.sizes[0], "sizesS": sc.sizes[1]}
 			ev := append([]trace.Event{{"ev": "reset", "scen": sc.name, "i": i,
 				"prepaired": b2i(sc.prepaired), "v1": 0}}, s.Rec.Events()...)
 			mu.Lock()
